@@ -1,12 +1,13 @@
 """C13 funcutils.wraps / update_wrapper: plug-in.
 
-A case is a *function description* (parameter names per kind, default and
-annotation objects, metadata, sync/async, def/lambda), the injected/expected
-arguments of wraps, and a list of call shapes.  run_impl compiles the function,
-wraps it with the real boltons.funcutils, and reports inspect.signature of both,
-the metadata, and for every call shape: the outcome of calling f directly, what
-the wrapper received, and the outcome of calling the wrapped function.  Python
-only moves data; Coq decides (Check/C13_Check.v).
+A case is a *base function description* (parameter names per kind, default and annotation objects, metadata,
+sync/async, def/lambda, attributes it already carries), a STACK of wraps steps (injected/expected arguments, options,
+entry point, argument forms) and a list of call shapes.  run_impl compiles the base function, applies the stack with
+the real boltons.funcutils, and reports: inspect.signature of the base function before and after, its __dict__ after,
+one more independent wraps(f); per level the own signature, metadata and __dict__ (function objects by identity);
+and for every call shape the outcome of calling f directly, what the outermost wrapper received, and the outcome of
+calling the outermost function.  Python only moves data; Coq decides (Check/C13_Check.v: agree, holds;
+Props/C13.v: C13_agree_implies_holds).  translators() regenerates coq/Gen/C13_Gen.v from the source.
 """
 import itertools
 from common import cnat, clist, cpair, copt, cbool
@@ -39,7 +40,8 @@ TRUSTED = ["Spec.C13_Spec.bind (Python's argument binding, transcribed) - valida
            "of the real function",
            "Model/C13_Model.v is hand-written; source-text generation, compile/exec and inspect.signature are modelled "
            "structurally and exercised by the correspondence run; Model/C13_Text.v models the generated text",
-           "harness/c13.py builds the functions and serialises observations"]
+           "Model.C13_Text.read_arglist stands in for Python's parser of argument lists (text-level theorems only)",
+           "harness/c13.py builds the functions, maps objects to tokens by identity and serialises observations"]
 
 # ---- translator (T): regenerate coq/Gen/C13_Gen.v from the source ---------------------------------
 # Behaviour, not spelling, is extracted: what FunctionBuilder._KWONLY_MARKER.sub('', s) does on every string
